@@ -31,9 +31,17 @@ func (e *BinaryOpExpr) Check(ctx *CheckCtx) error {
 // there would make the field a part of its own definition
 func definesItself(named Expression, user Expression) bool {
 	found := false
+	seen := map[Expression]bool{}
 	named.Walk(func(x Expression) bool {
 		if x == user {
 			found = true
+		}
+		// a field referred to from several places is looked into once
+		if ref, ok := x.(*FieldReferenceExpr); ok {
+			if seen[ref.FieldExpr] {
+				return false
+			}
+			seen[ref.FieldExpr] = true
 		}
 		return !found
 	})
